@@ -12,6 +12,7 @@ import (
 
 	sdkmath "cosmossdk.io/math"
 	sdk "github.com/cosmos/cosmos-sdk/types"
+	"github.com/cosmos/cosmos-sdk/x/authz"
 	stakingtypes "github.com/cosmos/cosmos-sdk/x/staking/types"
 	transfertypes "github.com/cosmos/ibc-go/v7/modules/apps/transfer/types"
 	clienttypes "github.com/cosmos/ibc-go/v7/modules/core/02-client/types"
@@ -104,6 +105,20 @@ type allowVal struct {
 	unlimited bool
 	limit     sdkmath.Int
 	exp       time.Time
+	// validators the grant covers: nil = every validator (what the precompile's approve writes on a
+	// chain without jailed validators); otherwise the allow list, or everything but the deny list
+	vals map[string]bool
+	deny bool
+}
+
+func (a allowVal) covers(val string) bool {
+	if a.vals == nil {
+		return true
+	}
+	if a.deny {
+		return !a.vals[val]
+	}
+	return a.vals[val]
 }
 
 func c04Sequence(r *report.R, id string) {
@@ -203,7 +218,54 @@ func c04Sequence(r *report.R, id string) {
 		if rng.Intn(5) == 0 {
 			e.nextBlock()
 		}
-		switch k := rng.Intn(12); {
+		switch k := rng.Intn(14); {
+		case k >= 12: // S grants natively (x/authz MsgGrant) a stake authorization with a narrow validator list
+			g := grantees[rng.Intn(len(grantees))]
+			mi := rng.Intn(4)
+			mt := msgTypes[mi]
+			at := []stakingtypes.AuthorizationType{stakingtypes.AuthorizationType_AUTHORIZATION_TYPE_DELEGATE, stakingtypes.AuthorizationType_AUTHORIZATION_TYPE_UNDELEGATE,
+				stakingtypes.AuthorizationType_AUTHORIZATION_TYPE_REDELEGATE, stakingtypes.AuthorizationType_AUTHORIZATION_TYPE_CANCEL_UNBONDING_DELEGATION}[mi]
+			perm := rng.Perm(3)
+			nl := 1 + rng.Intn(2)
+			listed := map[string]bool{}
+			var list []sdk.ValAddress
+			for i := 0; i < nl; i++ {
+				list = append(list, n.Vals[perm[i]].ValAddr)
+				listed[n.Vals[perm[i]].ValAddr.String()] = true
+			}
+			deny := rng.Intn(3) == 0
+			var lim *sdk.Coin
+			nv := allowVal{unlimited: true, vals: listed, deny: deny, exp: n.Time.Add(200 * time.Hour)}
+			if rng.Intn(2) == 0 {
+				c := sdk.NewCoin(vn.Denom, sdkmath.NewInt(stakeUnit*int64(1+rng.Intn(30))))
+				lim = &c
+				nv.unlimited, nv.limit = false, c.Amount
+			}
+			var sa *stakingtypes.StakeAuthorization
+			var err error
+			if deny {
+				sa, err = stakingtypes.NewStakeAuthorization(nil, list, at, lim)
+			} else {
+				sa, err = stakingtypes.NewStakeAuthorization(list, nil, at, lim)
+			}
+			if err != nil {
+				continue
+			}
+			exp := nv.exp
+			mg, err := authz.NewMsgGrant(S.Addr, sdk.AccAddress(g.Bytes()), sa, &exp)
+			if err != nil {
+				continue
+			}
+			res := n.Deliver(n.CosmosTx(vn.CosmosArgs{Msgs: []sdk.Msg{mg}, Gas: 1_000_000, Fee: vn.Coins(1_000_000)}, S))
+			trace = append(trace, fmt.Sprintf("S grants natively to %s: %s, %d validators (deny=%v), limit %v ok=%v", names[g.Hex()], mt, nl, deny, lim, res.Code == 0))
+			if res.Code == 0 {
+				ref[allowKey{g, mt}] = nv
+				r.Nontriv(fmt.Sprintf("manage|native-grant|deny=%v|limited=%v", deny, lim != nil))
+				r.Count("native_grants_with_validator_list", 1)
+			}
+			if !observe("manage:native-grant") {
+				return
+			}
 		case k < 4: // allowance management by S directly
 			g := grantees[rng.Intn(len(grantees))]
 			nm := 1 + rng.Intn(2)
@@ -347,6 +409,13 @@ func c04Sequence(r *report.R, id string) {
 				}
 				data = pack(e.abiStaking, "cancelUnbondingDelegation", named, val, amt, big.NewInt(h))
 			}
+			checkedVal := val // the validator a stake authorization is checked against
+			if mi == 2 {
+				checkedVal = n.Vals[0].ValAddr.String()
+				if checkedVal == val {
+					checkedVal = n.Vals[1].ValAddr.String()
+				}
+			}
 			txOK, mark, d := call(signer, rt.root, data)
 			succeeded := txOK && mark == 2
 			gcls := "absent"
@@ -375,6 +444,10 @@ func c04Sequence(r *report.R, id string) {
 				case "signer":
 					// caller ≠ signer: needs a live, matching, sufficient grant from the signer
 					allowed := has && (cur.unlimited || cur.limit.GTE(sdkmath.NewIntFromBigInt(amt)))
+					if allowed && !cur.covers(checkedVal) {
+						r.Violation(id, op+"|spent-on-a-validator-the-grant-does-not-cover", fmt.Sprintf("call succeeded for validator %s although the grant's validator list (deny=%v) is %v", checkedVal, cur.deny, cur.vals), trace)
+						return
+					}
 					if !allowed {
 						r.Violation(id, op+"|spent-without-sufficient-grant", fmt.Sprintf("call succeeded although the reference allowance is %+v (has=%v) for amount %s", cur, has, amt), trace)
 						return
